@@ -217,7 +217,16 @@ def extract_fn(repo, blk, meta, mode):
     src, toks = X.load(repo, rel)
     lo, hi = 0, len(toks)
     if 'impl' in kv:
-        ob, cb = X.find_impl(toks, kv['impl'])
+        cands = []
+        for (ob, cb) in X.find_impl(toks, kv['impl']):
+            try:
+                X.find_fn(toks, kv['name'], ob + 1, cb)
+                cands.append((ob, cb))
+            except X.LostAnchor:
+                pass
+        if len(cands) != 1:
+            raise X.LostAnchor('%s: fn %s found in %d impl blocks `%s`' % (rel, kv['name'], len(cands), kv['impl']))
+        ob, cb = cands[0]
         lo, hi = ob + 1, cb
     assoc = []
     if 'impl' in kv:
